@@ -1,4 +1,5 @@
 From Coq Require Import Extraction ExtrOcamlBasic.
-From CV Require Import C20.ScriptModel.
+From CV Require Import C20.ScriptModel C20.GradModel.
 Extraction Language OCaml.
-Extraction "model.ml" dispatch is_error table_wf lookup.
+Extraction "model.ml" dispatch is_error table_wf lookup entry_class is_pseudo witness_words exec do_event run_events state_wf
+  lower_bound collect_groups build_ids increasing.
